@@ -179,6 +179,105 @@ def finite_differences(ctx: Ctx) -> None:
                                           {"criterion": cname, "feats": feats, "cost": cost, "module_mode": mode, "H": H, "relative_error": worst})
 
 
+def _fd_compare(ctx: Ctx, key: str, what: str, loss_fn, params, detail) -> None:
+    try:
+        g = torch.autograd.grad(loss_fn(), params, allow_unused=True)
+    except Exception as e:
+        ctx.violation(f"{key}:raises", f"back-propagation raised {type(e).__name__}: {what}", {**detail, "error": repr(e)[:200]})
+        return
+    ctx.count(n=1)
+    worst, where = 0.0, None
+    with torch.no_grad():
+        for pi, (p, gp) in enumerate(zip(params, g)):
+            flat = p.view(-1)
+            for i in range(0, flat.numel(), max(1, flat.numel() // 4)):
+                old = flat[i].item()
+                h = 1e-6
+                flat[i] = old + h; up = loss_fn().item()
+                flat[i] = old - h; dn = loss_fn().item()
+                flat[i] = old
+                fd = (up - dn) / (2 * h)
+                ad = 0.0 if gp is None else gp.view(-1)[i].item()
+                err = abs(fd - ad) / (1e-4 + abs(fd) + abs(ad))
+                if err > worst:
+                    worst, where = err, {"parameter": pi, "index": i, "finite_difference": fd, "autograd": ad}
+    if worst > 2e-4:
+        ctx.violation(key, f"back-propagated gradient differs from central finite differences on the same paths: {what}", {**detail, "relative_error": worst, **(where or {})})
+
+
+def trainable_parts_outside_the_model(ctx: Ctx) -> None:
+    """The trainable parameters are not where the usual example puts them: (i) the hedger's model has NO trainable parameter
+    (a fixed formula; a frozen network) and the parameters sit in a ModuleOutput feature; (ii) the parameters are the BOUNDS of
+    a Clamp - one learnable number used for all paths, and the no-transaction band of one single path (bounds with exactly one
+    element).  In every case the gradient that back-propagation gives to those parameters is the derivative of the loss."""
+    from pfhedge.features import ModuleOutput
+    from pfhedge.instruments import BrownianStock, EuropeanOption
+    from pfhedge.nn import Clamp, EntropicRiskMeasure, Hedger
+    from pfhedge.nn.modules.loss import OCE
+
+    class Fixed(torch.nn.Module):                   # no parameter at all
+        def forward(self, x):
+            return torch.tanh(x.sum(-1, keepdim=True))
+
+    def frozen():
+        m = torch.nn.Sequential(torch.nn.Linear(2, 3, dtype=DT), torch.nn.Tanh(), torch.nn.Linear(3, 1, dtype=DT))
+        for p in m.parameters():
+            p.requires_grad_(False)
+        return m
+
+    class LearnedBounds(torch.nn.Module):           # one learnable lower and upper bound (0-dim parameters) for every path
+        def __init__(self):
+            super().__init__()
+            self.lin = torch.nn.Linear(2, 1, dtype=DT)
+            self.lo = torch.nn.Parameter(torch.tensor(-0.05, dtype=DT))
+            self.hi = torch.nn.Parameter(torch.tensor(0.35, dtype=DT))
+            self.clamp = Clamp()
+
+        def forward(self, x):
+            return self.clamp(self.lin(x) * 3, self.lo, self.hi)
+
+    class Band(torch.nn.Module):                    # no-transaction band around a learned centre: per-path bounds
+        def __init__(self):
+            super().__init__()
+            self.lin = torch.nn.Linear(2, 2, dtype=DT)
+            self.clamp = Clamp()
+
+        def forward(self, x):
+            prev = x[..., [-1]]
+            c = self.lin(x[..., :2])
+            centre, width = torch.sigmoid(c[..., [0]]), torch.nn.functional.softplus(c[..., [1]]) * 0.05
+            return self.clamp(prev, centre - width, centre + width)
+
+    torch.manual_seed(ctx.seed + 33)
+    for n_paths in (1, 2, 7):
+        for cname, crit in (("EntropicRiskMeasure", lambda: EntropicRiskMeasure(1.5)), ("OCE", lambda: OCE(lambda z: -torch.exp(-z)).to(DT))):
+            if n_paths == 1 and cname == "EntropicRiskMeasure":
+                pass
+            for label, make in (("parameter-free model, trainable ModuleOutput feature", "fixed"), ("frozen model, trainable ModuleOutput feature", "frozen"),
+                                ("learnable scalar Clamp bounds", "bounds"), ("no-transaction band (per-path Clamp bounds)", "band")):
+                stock = BrownianStock(cost=1e-2, dt=1 / 20, dtype=DT)
+                deriv = EuropeanOption(stock, maturity=5 / 20)
+                deriv.simulate(n_paths=n_paths)
+                if make in ("fixed", "frozen"):
+                    extractor = torch.nn.Sequential(torch.nn.Linear(2, 2, dtype=DT), torch.nn.Tanh())
+                    model = Fixed() if make == "fixed" else frozen()
+                    hedger = Hedger(model, [ModuleOutput(extractor, ["log_moneyness", "time_to_maturity"])], criterion=crit())
+                    params = list(extractor.parameters())
+                elif make == "bounds":
+                    model = LearnedBounds()
+                    hedger = Hedger(model, ["log_moneyness", "time_to_maturity"], criterion=crit())
+                    params = list(model.parameters())
+                else:
+                    model = Band()
+                    hedger = Hedger(model, ["log_moneyness", "time_to_maturity", "prev_hedge"], criterion=crit())
+                    params = list(model.parameters())
+                params += [p for p in hedger.criterion.parameters()]
+
+                def loss_fn() -> torch.Tensor:
+                    return hedger.criterion(hedger.compute_portfolio(deriv), deriv.payoff())
+                _fd_compare(ctx, f"fd:outside-model:{make}", f"{label}, {n_paths} path(s), {cname}", loss_fn, params, {"setup": label, "n_paths": n_paths, "criterion": cname})
+
+
 def two_runs_one_graph(ctx: Ctx) -> None:
     """The loss of TWO evaluations of the same hedger (a call and a put book; equal batch shapes) back-propagated together,
     for models whose last operation keeps its output for the backward pass: gradient vs central differences."""
@@ -314,6 +413,7 @@ def check(ctx: Ctx) -> None:
     replay(ctx, recs)
     grad_mode_protocol(ctx, recs[:: max(1, len(recs) // 24)])
     finite_differences(ctx)
+    trainable_parts_outside_the_model(ctx)
     two_runs_one_graph(ctx)
     lazy_first_use(ctx)
     fit_uses_the_gradient(ctx)
